@@ -83,7 +83,7 @@ fn explicit_width_open_at(calls: &[WCall], pos: usize) -> bool {
 }
 
 fn run(c: &mut Case) {
-    let o = DocOpts { p_width: 8, p_unknown: 35, raw: false, shaping: false, full_specs: false };
+    let o = DocOpts { p_width: 8, p_unknown: 35, raw: false, shaping: true, full_specs: false };
     let doc = gen_doc(&mut c.rng, c.tier, &o);
     doc.spec.install();
     if doc.tree.is_empty() {
